@@ -350,7 +350,14 @@ impl<'a> Ctx<'a> {
     ///
     /// Will start the search in the current function and bubble all the way up to the highest stack frame.
     pub(crate) fn load_variable(&self, name: &str) -> Option<PrimitiveFlagsPair> {
-        self.call_stack.borrow().find_name(name)
+        let call_stack = self.call_stack.borrow();
+
+        // Lexical scope: a name bound in the running function comes first, then a variable
+        // this function captured, and only then the variables of its callers.
+        call_stack
+            .find_name_in_function(name)
+            .or_else(|| self.callback_state.as_ref()?.get(name))
+            .or_else(|| call_stack.find_name(name))
     }
 
     pub(crate) fn load_self_export(&self, name: &str) -> Option<PrimitiveFlagsPair> {
